@@ -6,7 +6,7 @@
 //! The orchestrator (`../check`) builds this crate against the tree under test, runs it,
 //! matches violations against known_findings.json and writes the evidence file.
 mod util; mod isol; mod sw; mod report; mod run; mod gen; mod drive; mod proj;
-mod c01; mod c02; mod c03; mod c04; mod c05; mod c06; mod c07; mod c08; mod c09; mod c10; mod c11; mod c13; mod c14; mod c16; mod c18;
+mod c01; mod c02; mod c03; mod c04; mod c05; mod c06; mod c07; mod c08; mod c09; mod c10; mod c11; mod c12; mod c13; mod c14; mod c15; mod c16; mod c17; mod c18;
 
 use report::Report;
 use serde_json::{json, Value};
@@ -50,9 +50,12 @@ fn registry(id: &str) -> Option<(Explore, Replay)> {
         "C09" => (c09::explore, c09::replay),
         "C10" => (c10::explore, c10::replay),
         "C11" => (c11::explore, c11::replay),
+        "C12" => (c12::explore, c12::replay),
         "C13" => (c13::explore, c13::replay),
         "C14" => (c14::explore, c14::replay),
+        "C15" => (c15::explore, c15::replay),
         "C16" => (c16::explore, c16::replay),
+        "C17" => (c17::explore, c17::replay),
         "C18" => (c18::explore, c18::replay),
         _ => return None,
     })
